@@ -21,7 +21,7 @@
 -/
 import Nuts.Model.Tx
 import NutsProofs.Props.C05
-import NutsProofs.Facts
+import NutsProofs.Pins.Closed
 namespace NutsProofs.C20
 open Nuts Nuts.Model Nuts.Model.DB Nuts.Spec
 
